@@ -217,7 +217,15 @@ impl CapGen<'_> {
         match self.r.below(top) {
             0 => self.r.below(1000).to_string(),
             1 => format!("{}.5", self.r.below(40)),
-            2 => format!("'s{}'", self.r.below(30)),
+            2 => match self.r.below(8) {
+                // literals with escape sequences (processed by the parser); rarely one that the
+                // parser rejects after some valid characters
+                0 => format!("'t{}\\tab\\n'", self.r.below(30)),
+                1 => format!("\"q{}\\\"x\\\\y\"", self.r.below(30)),
+                2 => format!("'u\\x41\\u{{1F600}}{}'", self.r.below(30)),
+                3 if self.r.chance(1, 6) => format!("'it costs \\$ {}'", self.r.below(30)),
+                _ => format!("'s{}'", self.r.below(30)),
+            },
             3 => self.name(scope),
             4 | 5 => {
                 let op = *self.r.pick(&["+", "-", "*", "%"]);
@@ -652,6 +660,9 @@ pub fn check(sc: &Scenario) -> (Option<ViolationReport>, u64, Outcome) {
 }
 
 pub fn replay(doc: &Value) -> (Option<(String, String)>, u64) {
+    if doc["scenario"]["kind"].as_str() == Some("leftover") {
+        return replay_leftover(doc);
+    }
     let sc = &doc["scenario"];
     let src = sc["source"].as_str().unwrap_or("");
     let exp = sc["export_top_level_ids"].as_bool().unwrap_or(false);
@@ -689,10 +700,85 @@ impl CompWorker {
     }
 }
 
+pub const CLASS_LEFTOVER: &str = "compile-depends-on-earlier-compilation";
+
+fn compile_with_loader(
+    loader: &mut koto::bytecode::ModuleLoader,
+    src: &str,
+    export_top_level_ids: bool,
+    enable_type_checks: bool,
+) -> Outcome {
+    set_hash_seed(0);
+    let settings = CompilerSettings {
+        export_top_level_ids,
+        enable_type_checks,
+    };
+    let r = std::panic::catch_unwind(std::panic::AssertUnwindSafe(|| loader.compile_script(src, None, settings)));
+    match r {
+        Ok(Ok(c)) => Outcome::Ok((*c).clone()),
+        Ok(Err(e)) => Outcome::Err(e.to_string()),
+        Err(_) => Outcome::Err("panic while compiling".into()),
+    }
+}
+
+/// previous program, then this one, through ONE loader; the result for this one must equal what a
+/// fresh compiler gives
+fn leftover_check(prev: &(String, bool, bool), cur: &(String, bool, bool)) -> Option<String> {
+    let mut loader = koto::bytecode::ModuleLoader::default();
+    let _ = compile_with_loader(&mut loader, &prev.0, prev.1, prev.2);
+    let via = compile_with_loader(&mut loader, &cur.0, cur.1, cur.2);
+    let fresh = compile_under(&cur.0, cur.1, cur.2, 0);
+    match (&via, &fresh) {
+        (Outcome::Ok(_), Outcome::Ok(_)) if via != fresh => Some(describe_difference(&fresh, &via)),
+        (Outcome::Ok(_), Outcome::Err(_)) | (Outcome::Err(_), Outcome::Ok(_)) => Some(format!(
+            "a fresh compiler gives `{}`, the reused loader `{}`",
+            fresh.summary(),
+            via.summary()
+        )),
+        _ => None,
+    }
+}
+
+pub fn replay_leftover(doc: &Value) -> (Option<(String, String)>, u64) {
+    let sc = &doc["scenario"];
+    let get = |k: &str| -> (String, bool, bool) {
+        (
+            sc[k]["source"].as_str().unwrap_or("").to_string(),
+            sc[k]["export_top_level_ids"].as_bool().unwrap_or(false),
+            sc[k]["enable_type_checks"].as_bool().unwrap_or(true),
+        )
+    };
+    match leftover_check(&get("previous"), &get("current")) {
+        Some(d) => (Some((CLASS_LEFTOVER.into(), d)), 1),
+        None => (None, 0),
+    }
+}
+
 impl Worker for CompWorker {
     fn run(&mut self, run_seed: u64, index: u64) -> RunReport {
         let sc = make_scenario(run_seed, index, &self.corpus);
-        let (violation, executions, first) = check(&sc);
+        let (mut violation, mut executions, first) = check(&sc);
+        // leftover state: a partner program (seeded, with its own settings) is compiled first
+        // through ONE module loader, then this one; a fresh compiler must give the same
+        let cur = (sc.source.clone(), sc.export_top_level_ids, sc.enable_type_checks);
+        if violation.is_none() {
+            let partner = make_scenario(mix(run_seed, 0x9a27), u64::MAX, &self.corpus);
+            let prev = (partner.source, partner.export_top_level_ids, partner.enable_type_checks);
+            executions += 3;
+            if let Some(detail) = leftover_check(&prev, &cur) {
+                violation = Some(ViolationReport {
+                    class: CLASS_LEFTOVER.into(),
+                    detail: format!("compiling another text first changes the result: {detail}"),
+                    scenario: json!({
+                        "kind": "leftover",
+                        "previous": {"source": prev.0, "export_top_level_ids": prev.1, "enable_type_checks": prev.2},
+                        "current": {"source": cur.0, "export_top_level_ids": cur.1, "enable_type_checks": cur.2},
+                    }),
+                    extra: json!({"origin": sc.origin}),
+                    known: None,
+                });
+            }
+        }
         let (funcs, multi, max) = capture_profile(&sc.source);
         let mut d = Digest::new();
         d.str(&sc.source);
